@@ -797,3 +797,83 @@ Theorem C05_c_sse2_blake3_compress_xof_sse2_portable : forall cv block bl ctr fl
   c_sse2_blake3_compress_xof_sse2 cv block bl ctr fl out = compress_xof cv block bl ctr fl.
 Proof. exact c_sse2_compress_xof_portable. Qed.
 Print Assumptions C05_c_sse2_blake3_compress_xof_sse2_portable.
+
+(* ---- hash1 / hash_many outside the compression: the block loops with the block_flags bookkeeping and the
+   per-input loop with the counter increment, translated statement by statement (gen/GenCascades.v; representation
+   in the header comment of that generator in tools/gen_coq.py), against the models.  `fuel` is the fuel of the
+   translated `while` loops: the statements hold at EVERY fuel above the loop's iteration count. ---- *)
+From V Require Import gen.GenCascades Proofs.CascadesP.
+
+(* src/portable.rs hash1::<N> (N = input.len()) *)
+Theorem C05_src_rs_portable_hash1 : forall fuel input key ctr flags fs fe,
+  length key = 8%nat -> (length input / 64 < fuel)%nat ->
+  src_rs_portable_hash1 fuel (N.of_nat (length input)) input key ctr flags fs fe = Portable.hash1 input key ctr flags fs fe.
+Proof. exact src_rs_portable_hash1_ok. Qed.
+Print Assumptions C05_src_rs_portable_hash1.
+(* src/portable.rs hash_many::<N>: out.len() = 32 * cap, every input has N = n bytes *)
+Theorem C05_src_rs_portable_hash_many : forall fuel n inputs key counter incr flags fs fe cap,
+  length key = 8%nat -> (n / 64 < fuel)%nat -> Forall (fun i => length i = n) inputs -> N.of_nat (length inputs) * 32 < 2 ^ 64 ->
+  src_rs_portable_hash_many fuel (N.of_nat n) inputs key counter incr flags fs fe (32 * cap)
+  = Portable.hash_many inputs key counter incr flags fs fe cap.
+Proof. exact src_rs_portable_hash_many_ok. Qed.
+Print Assumptions C05_src_rs_portable_hash_many.
+(* c/blake3_portable.c hash_one_portable: `out` is the 32 bytes the caller passes, all overwritten *)
+Theorem C05_src_c_portable_hash_one_portable : forall fuel input blocks key ctr flags fs fe out,
+  length key = 8%nat -> length out = 32%nat -> length input = (blocks * 64)%nat -> (blocks < fuel)%nat -> N.of_nat blocks < 2 ^ 64 ->
+  src_c_portable_hash_one_portable fuel input (N.of_nat blocks) key ctr flags fs fe out = Portable.hash1 input key ctr flags fs fe.
+Proof. exact src_c_portable_hash_one_portable_ok. Qed.
+Print Assumptions C05_src_c_portable_hash_one_portable.
+(* hash1 of src/rust_sse2.rs / src/rust_sse41.rs over ANY compress_in_place `cip` (okc cip = the callee returning
+   Ok (cip ..)): the one-input kernel hash1_rs cip of the cascades *)
+Theorem C05_src_rs_sse2_hash1 : forall cip fuel input blocks key ctr flags fs fe, (length input / 64 < fuel)%nat ->
+  src_rs_sse2_hash1 (okc cip) fuel (N.of_nat (length input)) input key ctr flags fs fe = hash1_rs cip input blocks key ctr flags fs fe.
+Proof. exact src_rs_sse2_hash1_ok. Qed.
+Print Assumptions C05_src_rs_sse2_hash1.
+Theorem C05_src_rs_sse41_hash1 : forall cip fuel input blocks key ctr flags fs fe, (length input / 64 < fuel)%nat ->
+  src_rs_sse41_hash1 (okc cip) fuel (N.of_nat (length input)) input key ctr flags fs fe = hash1_rs cip input blocks key ctr flags fs fe.
+Proof. exact src_rs_sse41_hash1_ok. Qed.
+Print Assumptions C05_src_rs_sse41_hash1.
+(* hash_one_sse2 / hash_one_sse41 / hash_one_avx512 over any compress_in_place that keeps cv at 8 words *)
+Theorem C05_src_c_sse2_hash_one_sse2 : forall (cip : cip_fn) fuel input blocks key ctr flags fs fe out,
+  length key = 8%nat -> (blocks < fuel)%nat -> N.of_nat blocks < 2 ^ 64 -> (64 * blocks <= length input)%nat ->
+  length (hash_one_go cip blocks key input ctr flags (N.lor flags fs) fe) = 8%nat ->
+  src_c_sse2_hash_one_sse2 cip fuel input (N.of_nat blocks) key ctr flags fs fe out = hash_one_c cip input blocks key ctr flags fs fe.
+Proof. exact src_c_sse2_hash_one_sse2_ok. Qed.
+Print Assumptions C05_src_c_sse2_hash_one_sse2.
+Theorem C05_src_c_sse41_hash_one_sse41 : forall (cip : cip_fn) fuel input blocks key ctr flags fs fe out,
+  length key = 8%nat -> (blocks < fuel)%nat -> N.of_nat blocks < 2 ^ 64 -> (64 * blocks <= length input)%nat ->
+  length (hash_one_go cip blocks key input ctr flags (N.lor flags fs) fe) = 8%nat ->
+  src_c_sse41_hash_one_sse41 cip fuel input (N.of_nat blocks) key ctr flags fs fe out = hash_one_c cip input blocks key ctr flags fs fe.
+Proof. exact src_c_sse41_hash_one_sse41_ok. Qed.
+Print Assumptions C05_src_c_sse41_hash_one_sse41.
+Theorem C05_src_c_avx512_hash_one_avx512 : forall (cip : cip_fn) fuel input blocks key ctr flags fs fe out,
+  length key = 8%nat -> (blocks < fuel)%nat -> N.of_nat blocks < 2 ^ 64 -> (64 * blocks <= length input)%nat ->
+  length (hash_one_go cip blocks key input ctr flags (N.lor flags fs) fe) = 8%nat ->
+  src_c_avx512_hash_one_avx512 cip fuel input (N.of_nat blocks) key ctr flags fs fe out = hash_one_c cip input blocks key ctr flags fs fe.
+Proof. exact src_c_avx512_hash_one_avx512_ok. Qed.
+Print Assumptions C05_src_c_avx512_hash_one_avx512.
+(* the `while inputs.len() >= DEGREE && out.len() >= DEGREE * OUT_LEN` loop of hash_many of src/rust_sse41.rs /
+   src/rust_sse2.rs (hash4 = any hN; slice advance, counter += DEGREE, out advance) is batch_while 4 of the cascade
+   model hash_many_rs4: out.len() = 32 * cap, blocks = N / BLOCK_LEN, acc = what was written before the loop *)
+Theorem C05_src_rs_sse41_hash_many_loop1 : forall hN ext fuel gN inputs key counter incr flags fs fe cap acc, (length inputs < fuel)%nat ->
+  src_rs_sse41_hash_many_loop1 hN ext fuel gN inputs key counter incr flags fs fe (32 * cap) acc =
+  ('(outs, st) <- batch_while fuel 4 hN cadd_rs true inputs (N.to_nat (gN / 64)) key counter incr flags fs fe cap ;;
+   let '(rest, c', cap') := st in Ok (rest, c', 32 * cap', acc ++ outs)).
+Proof. exact src_rs_sse41_hash_many_loop1_ok. Qed.
+Print Assumptions C05_src_rs_sse41_hash_many_loop1.
+Theorem C05_src_rs_sse2_hash_many_loop1 : forall hN ext fuel gN inputs key counter incr flags fs fe cap acc, (length inputs < fuel)%nat ->
+  src_rs_sse2_hash_many_loop1 hN ext fuel gN inputs key counter incr flags fs fe (32 * cap) acc =
+  ('(outs, st) <- batch_while fuel 4 hN cadd_rs true inputs (N.to_nat (gN / 64)) key counter incr flags fs fe cap ;;
+   let '(rest, c', cap') := st in Ok (rest, c', 32 * cap', acc ++ outs)).
+Proof. exact src_rs_sse2_hash_many_loop1_ok. Qed.
+Print Assumptions C05_src_rs_sse2_hash_many_loop1.
+(* the `while (num_inputs >= 16)` loop of blake3_hash_many_avx512 (c/blake3_avx512.c; hash16 = any h16; `inputs += 16`,
+   `num_inputs -= 16`, `counter += 16`) is batch_while 16 of the cascade model hash_many_c16 *)
+Theorem C05_src_c_avx512_blake3_hash_many_avx512_loop1 : forall h16 h8 h4 ext fuel inputs blocks key counter incr flags fs fe out acc,
+  (length inputs < fuel)%nat -> N.of_nat (length inputs) < 2 ^ 64 ->
+  (p <- src_c_avx512_blake3_hash_many_avx512_loop1 h16 h8 h4 ext fuel inputs (N.of_nat (length inputs)) blocks key counter incr flags fs fe out acc ;;
+   let '(i, n, c, _, w) := p in Ok (i, n, c, w)) =
+  ('(outs, st) <- batch_while fuel 16 h16 cadd_c false inputs (N.to_nat blocks) key counter incr flags fs fe 0 ;;
+   let '(rest, c', _) := st in Ok (rest, N.of_nat (length rest), c', acc ++ outs)).
+Proof. exact src_c_avx512_blake3_hash_many_avx512_loop1_ok. Qed.
+Print Assumptions C05_src_c_avx512_blake3_hash_many_avx512_loop1.
